@@ -5,7 +5,7 @@ import logging
 import os
 from dataclasses import dataclass, field
 
-from . import xltypes, reader, parser, tokenizer
+from . import xltypes, reader, parser, tokenizer, utils
 
 
 @dataclass
@@ -242,6 +242,13 @@ class ModelCompiler:
 
             # a cell has an address like; Sheet1!A1
             if ':' not in cell_address:
+                if '!' in cell_address:
+                    # Cells are keyed by the plain sheet name, a defined
+                    # name spells it the way formulas do: 'My Sheet'!A1
+                    sheet_str, coordinate = cell_address.rsplit('!', 1)
+                    cell_address = '{}!{}'.format(
+                        utils.resolve_sheet(sheet_str), coordinate)
+
                 if cell_address not in self.model.cells:
                     logging.warning(
                         f"Defined name {name} refers to empty cell "
